@@ -180,6 +180,11 @@ inline bool plan_effect(Model const& M, ModelTraits const& T, Op const& op, Effe
 			set_dims(a, D, b.n);
 			a.v     = b.v;
 			a.arena = op.kind == O_CTOR_COPY ? (T.soccc_default ? 0 : b.arena) : op.ar;
+			if(op.kind == O_CTOR_COPY && op.var == 1) {  // from a temporary array_ref over b's storage: no allocator to take over
+				if(D == 0 || b.count() == 0) return false;
+				a.arena = 0;
+				var("from-array_ref");
+			} else if(op.var != 0 && op.kind == O_CTOR_COPY) return false;
 			a.exact_empty = b.exact_empty;  // "extents ... equal the source's", also for an empty source
 			e.elems = b.count();
 			if(a.arena != b.arena) var("other-arena");
@@ -693,8 +698,11 @@ inline bool plan_effect(Model const& M, ModelTraits const& T, Op const& op, Effe
 		}
 		MView v;
 		if(!model_view(M, T, op.da, op.a, op.ca, v)) return false;
-		if(op.var < 0 || op.var > 4) return false;
-		if(op.var >= 3) {  // through reinterpret_array_cast<i64>() / <i64>(1): only for the trivial element type, which is one i64
+		if(op.var < 0 || op.var > 5) return false;
+		if(op.var == 5) {
+			if(v.count() == 0) return false;
+			var("arrow");
+		} else if(op.var >= 3) {  // through reinterpret_array_cast<i64>() / <i64>(1): only for the trivial element type, which is one i64
 			if(!T.trivial || !T.tracked_is_triv || v.count() == 0) return false;
 			var(op.var == 3 ? "reinterpret" : "reinterpret-count");
 		}
@@ -776,6 +784,7 @@ inline bool plan_effect(Model const& M, ModelTraits const& T, Op const& op, Effe
 		e.file_next.arch     = op.arch;
 		e.file_next.is_array = op.var != 1 && op.var != 3;
 		e.file_next.base     = op.var == 2 ? 1 : 0;
+		e.file_next.exact_empty = e.file_next.is_array && D != 0 && M.at(op.da, op.a).exact_empty;
 		e.file_next.D        = v.D;
 		for(int k = 0; k < v.D; ++k) e.file_next.n[k] = v.n[k];
 		e.file_next.v = gather(M.at(op.da, op.a), v);
@@ -806,6 +815,7 @@ inline bool plan_effect(Model const& M, ModelTraits const& T, Op const& op, Effe
 			if(op.var == 1) var("into-reindexed");
 			set_dims(a, f.D, f.n);
 			a.v     = f.v;
+			a.exact_empty = f.exact_empty;  // "equal to the original in extents", also for an empty original
 			e.elems = f.count();
 			if(same && a0.count() > 0) e.expect_no_alloc = e.expect_base_unchanged = true;
 			e.probe_id = same ? P_LOAD_SAME_EXT : P_LOAD_DIFF_EXT;
